@@ -23,6 +23,7 @@ RULE = ("structure: every (number of baths 1-4, depth 0-6) shape (thorough: bath
         "closed-system limit with zero reorganisation energy; convergence ladders depth 1..6 (thorough 1..8) for uncoupled sites with "
         "sqrt(2 lambda kT)/gamma in [0.3,1.5]. distinct = (class, baths, depth, rounded parameters); non-trivial iff hsize > 1 (structure), "
         "the state changes by more than 1e-3 (dynamics), the coherence decays by more than 5 % (convergence).")
+RULE = RULE + " Round-6 workloads: every propagator object is run three times; one third of the closed-limit cases has fast baths (8-14 fs), depth 4-6 and a 2 fs step (max Gamma dt > 1)."
 ASSUMPTIONS = ["'converges with increasing depth' is restated as: deviation from the analytic solution is non-increasing from depth 1 to D, "
                "drops by at least 30 % every two levels and is below a calibrated 1.5e-3 at D=6 (1e-4 at D=8), comparisons stop at the integrator's time-step floor 1e-7; nothing is claimed beyond D",
                "the analytic line-shape function is the high-temperature one (the hierarchy announces that only this limit is used)"]
